@@ -1,5 +1,6 @@
 import SecsModel.Props.C11
 #print axioms SecsModel.Props.C11.table_refines_E30
+#print axioms SecsModel.Props.C11.methods_wellformed
 #print axioms SecsModel.Props.C11.step_refines_E30
 #print axioms SecsModel.Props.C11.ack_codes
 #print axioms SecsModel.Props.C11.events_exactly_on_transitions
